@@ -42,6 +42,8 @@ pub struct RecState {
     /// screen snapshot (scrollback + screen rows, right-trimmed, trailing blank rows removed) per flush
     pub snapshots: Vec<Vec<String>>,
     pub cursor_at_flush: Vec<(u16, u16)>,
+    /// a resized terminal: `width()` returns this instead of the width given at creation
+    pub width_override: Option<u16>,
 }
 
 /// Recording (and optionally failing) terminal around a `vt100::Parser` with scrollback.
@@ -72,6 +74,8 @@ impl Recorder {
         st.ops.push(op);
         Ok(())
     }
+    /// the terminal is resized: later `width()` queries return `w`
+    pub fn set_width(&self, w: u16) { self.st.lock().unwrap().width_override = Some(w); }
     pub fn failed(&self) -> usize { self.st.lock().unwrap().failed }
     pub fn set_fault(&self, k: usize, sticky: bool) { let mut st = self.st.lock().unwrap(); st.fail_at = Some(k); st.sticky = sticky; }
     pub fn flushes(&self) -> usize { self.st.lock().unwrap().flushes }
@@ -122,7 +126,7 @@ fn snapshot(st: &RecState, w: u16) -> (Vec<String>, (u16, u16)) {
 }
 
 impl TermLike for Recorder {
-    fn width(&self) -> u16 { self.w }
+    fn width(&self) -> u16 { self.st.lock().unwrap().width_override.unwrap_or(self.w) }
     fn height(&self) -> u16 { self.h }
     fn move_cursor_up(&self, n: usize) -> io::Result<()> { if n == 0 { return self.call(Op::Up(0), b""); } self.call(Op::Up(n), format!("\x1b[{n}A").as_bytes()) }
     fn move_cursor_down(&self, n: usize) -> io::Result<()> { if n == 0 { return self.call(Op::Down(0), b""); } self.call(Op::Down(n), format!("\x1b[{n}B").as_bytes()) }
